@@ -72,6 +72,7 @@ pub enum PropH {
     C07,
     C10,
     C14,
+    C09,
 }
 
 pub struct SimH {
@@ -105,7 +106,13 @@ pub enum RepH {
 
 #[derive(Clone, Debug, Serialize, Deserialize, PartialEq)]
 pub enum KindH {
-    Market { inst: usize, price: i64 },
+    /// public trade stamped `lag_ms` before the instant it is pushed
+    Market {
+        inst: usize,
+        price: i64,
+        #[serde(default)]
+        lag_ms: u64,
+    },
     MarketReconnecting { ex: usize },
     /// report stamped `lag_ms` before the instant it is pushed (exchange-side latency)
     AcctOrder { ord: usize, rep: RepH, lag_ms: u64 },
@@ -371,11 +378,11 @@ fn run_system(sc: &ScenarioH, w: &WorldH) -> Result<RunOut, String> {
             }
             let now = now_ms() as i64;
             match &st.kind {
-                KindH::Market { inst, price } => {
+                KindH::Market { inst, price, lag_ms } => {
                     if *inst >= w.n_inst() {
                         continue;
                     }
-                    let ev = mk_public_trade(EXS[w.inst_ex[*inst]], *inst, now, *price as f64, &format!("m{k}"));
+                    let ev = mk_public_trade(EXS[w.inst_ex[*inst]], *inst, now - *lag_ms as i64, *price as f64, &format!("m{k}"));
                     if mkt_tx.send(MarketStreamEvent::Item(ev)).is_ok() {
                         market_items_pushed += 1;
                     }
@@ -668,6 +675,7 @@ impl Sim for SimH {
             PropH::C07 => "C07",
             PropH::C10 => "C10",
             PropH::C14 => "C14",
+            PropH::C09 => "C09",
         }
     }
     fn sub_batches(&self) -> Vec<&'static str> {
@@ -730,7 +738,7 @@ impl Sim for SimH {
             };
             let r = rng.below(100);
             let kind = if r < 34 {
-                KindH::Market { inst: rng.usize(n_inst), price: rng.range(50, 150) }
+                KindH::Market { inst: rng.usize(n_inst), price: rng.range(50, 150), lag_ms: if faulty { *rng.pick(&[0u64, 0, 0, 1, 5, 50, 500]) } else { 0 } }
             } else if r < 54 {
                 KindH::AcctOrder {
                     ord: rng.usize(n_ord),
@@ -745,7 +753,7 @@ impl Sim for SimH {
             } else if r < 66 {
                 let n = (1 + rng.usize(2)).min(unopened.len());
                 if n == 0 {
-                    KindH::Market { inst: rng.usize(n_inst), price: rng.range(50, 150) }
+                    KindH::Market { inst: rng.usize(n_inst), price: rng.range(50, 150), lag_ms: if faulty { *rng.pick(&[0u64, 0, 0, 1, 5, 50, 500]) } else { 0 } }
                 } else {
                     let mut v: Vec<usize> = unopened.drain(..n).collect();
                     if faulty && rng.chance(1, 12) {
@@ -771,11 +779,11 @@ impl Sim for SimH {
                     lag_ms: if faulty { *rng.pick(&[0u64, 0, 5, 500]) } else { 0 },
                 }
             } else if r < 94 {
-                if faulty { KindH::AcctDrop { ex: rng.usize(n_ex) } } else { KindH::Market { inst: rng.usize(n_inst), price: 100 } }
+                if faulty { KindH::AcctDrop { ex: rng.usize(n_ex) } } else { KindH::Market { inst: rng.usize(n_inst), price: 100, lag_ms: 0 } }
             } else if faulty {
                 KindH::MarketReconnecting { ex: rng.usize(n_ex) }
             } else {
-                KindH::Market { inst: rng.usize(n_inst), price: 101 }
+                KindH::Market { inst: rng.usize(n_inst), price: 101, lag_ms: 0 }
             };
             steps.push(StepH { at_ms: t, kind });
         }
@@ -912,6 +920,11 @@ impl Sim for SimH {
                 if let KindH::AcctOrder { lag_ms, .. } | KindH::AcctBalance { lag_ms, .. } = &s.kind {
                     if *lag_ms > 0 {
                         stats.fault("account_report_lagging");
+                    }
+                }
+                if let KindH::Market { lag_ms, .. } = &s.kind {
+                    if *lag_ms > 0 {
+                        stats.fault("market_item_lagging");
                     }
                 }
             }
@@ -1464,6 +1477,118 @@ impl Sim for SimH {
                 }
                 stats.probe("lifecycle_model_followed_whole_system_run");
             }
+            // ================================================================================
+            // C09: what the engine holds always carries the greatest exchange timestamp delivered
+            // ================================================================================
+            if self.prop == PropH::C09 {
+                let n_assets = w.instruments.assets().len();
+                let mut bal: Vec<Vec<(i64, rust_decimal::Decimal)>> = vec![Vec::new(); n_assets];
+                let mut trd: Vec<Vec<(i64, rust_decimal::Decimal)>> = vec![Vec::new(); w.n_inst()];
+                let mut last_data: Vec<Option<OD>> = vec![None; sc.ords.len()];
+                let queue: Rc<RefCell<VecDeque<Tick>>> = Rc::new(RefCell::new(VecDeque::new()));
+                let q2 = queue.clone();
+                let updates = std::iter::from_fn(move || q2.borrow_mut().pop_front());
+                let mut replica = StateReplicaManager::new(out.snapshot.clone(), updates);
+                for (k, t) in out.ticks.iter().enumerate() {
+                    queue.borrow_mut().push_back(t.clone());
+                    let _ = replica.run::<u64, ExchangeId>();
+                    if let EngineAudit::Process(pa) = &t.event {
+                        match &pa.event {
+                            EngineEvent::Account(AccountStreamEvent::Item(ev)) => match &ev.kind {
+                                AccountEventKind::BalanceSnapshot(b) => {
+                                    let a = b.0.asset.0;
+                                    if a < n_assets {
+                                        let tt = ms_of(b.0.time_exchange);
+                                        if bal[a].iter().any(|(x, _)| *x > tt) {
+                                            stats.probe("late_balance_ignored");
+                                        }
+                                        bal[a].push((tt, b.0.balance.total));
+                                    }
+                                }
+                                AccountEventKind::Snapshot(s) => {
+                                    for b in &s.balances {
+                                        if b.asset.0 < n_assets {
+                                            bal[b.asset.0].push((ms_of(b.time_exchange), b.balance.total));
+                                        }
+                                    }
+                                }
+                                AccountEventKind::OrderSnapshot(s) => {
+                                    if let (Some(o), OrderState::Active(ActiveOrderState::Open(op))) = (ord_of_cid(&s.0.key.cid.0), &s.0.state) {
+                                        if last_data.get(o).is_some_and(|d| d.as_ref().is_some_and(|d| d.t > ms_of(op.time_exchange))) {
+                                            stats.probe("late_order_report_ignored");
+                                        }
+                                    }
+                                }
+                                _ => {}
+                            },
+                            EngineEvent::Market(MarketStreamEvent::Item(m)) => {
+                                if let barter_data::event::DataKind::Trade(pt) = &m.kind {
+                                    let i = m.instrument.0;
+                                    if i < w.n_inst() {
+                                        let tt = ms_of(m.time_exchange);
+                                        if trd[i].iter().any(|(x, _)| *x > tt) {
+                                            stats.probe("late_public_trade_ignored");
+                                        }
+                                        trd[i].push((tt, rust_decimal::Decimal::try_from(pt.price).unwrap_or_default()));
+                                    }
+                                }
+                            }
+                            _ => {}
+                        }
+                    }
+                    let s = replica.replica_engine_state();
+                    for a in 0..n_assets {
+                        let held = s.assets.asset_index(&barter_instrument::asset::AssetIndex(a)).balance;
+                        let ok = match (held, bal[a].iter().map(|x| x.0).max()) {
+                            (None, None) => true,
+                            (Some(h), Some(mx)) => ms_of(h.time) == mx && bal[a].iter().any(|(tt, v)| *tt == mx && *v == h.value.total),
+                            _ => false,
+                        };
+                        if !ok {
+                            fail!('chk, "T1_balance_not_latest", k, "after audit record {k}: asset {a} holds {:?}; balances delivered so far (t, total) {:?}", held.map(|h| (ms_of(h.time), h.value.total)), bal[a]);
+                        }
+                    }
+                    for i in 0..w.n_inst() {
+                        let held = s.instruments.instrument_index(&InstrumentIndex(i)).data.last_traded_price;
+                        let ok = match (held, trd[i].iter().map(|x| x.0).max()) {
+                            (None, None) => true,
+                            (Some(h), Some(mx)) => ms_of(h.time) == mx && trd[i].iter().any(|(tt, v)| *tt == mx && *v == h.value),
+                            _ => false,
+                        };
+                        if !ok {
+                            fail!('chk, "T2_last_trade_not_latest", k, "after audit record {k}: instrument {i} holds last trade {:?}; public trades delivered so far (t, price) {:?}", held.map(|h| (ms_of(h.time), h.value)), trd[i]);
+                        }
+                    }
+                    // an order's exchange-reported data never moves back while it stays tracked
+                    for o in 0..sc.ords.len() {
+                        if !w.ord_ok(sc, o) {
+                            continue;
+                        }
+                        let now = data_of(&view_h(s, sc.ords[o].inst, &cid(o)));
+                        if let (Some(prev), Some(cur)) = (&last_data[o], &now) {
+                            if cur.t < prev.t {
+                                fail!('chk, "T4_order_data_moved_back", k, "after audit record {k}: order {} holds exchange data stamped {} ms, before this record it held data stamped {} ms", cid(o), cur.t, prev.t);
+                            }
+                        }
+                        last_data[o] = now;
+                    }
+                }
+                // the engine handed back holds what the replica holds
+                let s = &out.final_state;
+                let r = replica.replica_engine_state();
+                for a in 0..n_assets {
+                    let idx = barter_instrument::asset::AssetIndex(a);
+                    if s.assets.asset_index(&idx).balance != r.assets.asset_index(&idx).balance {
+                        fail!('chk, "T1_balance_not_latest", out.ticks.len(), "final engine: asset {a} holds {:?}, the replica of the audit stream {:?}", s.assets.asset_index(&idx).balance, r.assets.asset_index(&idx).balance);
+                    }
+                }
+                for i in 0..w.n_inst() {
+                    let idx = InstrumentIndex(i);
+                    if s.instruments.instrument_index(&idx).data.last_traded_price != r.instruments.instrument_index(&idx).data.last_traded_price {
+                        fail!('chk, "T2_last_trade_not_latest", out.ticks.len(), "final engine: instrument {i} last trade differs from the replica of the audit stream");
+                    }
+                }
+            }
             let _ = out.algo_calls;
             break 'chk;
         }
@@ -1526,10 +1651,10 @@ impl Sim for SimH {
             }
         }
         for (k, st) in sc.steps.iter().enumerate() {
-            if let KindH::AcctOrder { lag_ms, .. } | KindH::AcctBalance { lag_ms, .. } = &st.kind {
+            if let KindH::AcctOrder { lag_ms, .. } | KindH::AcctBalance { lag_ms, .. } | KindH::Market { lag_ms, .. } = &st.kind {
                 if *lag_ms > 0 {
                     let mut s = sc.clone();
-                    if let KindH::AcctOrder { lag_ms, .. } | KindH::AcctBalance { lag_ms, .. } = &mut s.steps[k].kind {
+                    if let KindH::AcctOrder { lag_ms, .. } | KindH::AcctBalance { lag_ms, .. } | KindH::Market { lag_ms, .. } = &mut s.steps[k].kind {
                         *lag_ms = 0;
                     }
                     out.push(s);
@@ -1572,6 +1697,7 @@ impl Sim for SimH {
             "client_error_response",
             "account_report_lagging",
             "exchange_without_execution_link",
+            "market_item_lagging",
         ]
     }
     fn probe_kinds(&self) -> Vec<&'static str> {
@@ -1582,6 +1708,7 @@ impl Sim for SimH {
             PropH::C07 => vec!["response_in_time", "request_timed_out", "quiescence_reached_no_order_in_flight"],
             PropH::C10 => vec!["replica_followed_whole_system_run"],
             PropH::C14 => vec!["market_link_healed", "account_link_healed", "account_stream_reconnected_by_real_manager"],
+            PropH::C09 => vec!["late_balance_ignored", "late_public_trade_ignored", "late_order_report_ignored"],
         });
         v
     }
